@@ -511,6 +511,13 @@ pub fn eval_unit_name(
                     ));
                 }
                 let right = right.value.to_f64();
+                if right.fract() != 0.0 || right.abs() > i32::MAX as f64 {
+                    // The unit names can only carry whole powers.
+                    return Err(QueryError::generic(
+                        "Exponents in the right hand side of conversions must be integers"
+                            .to_string(),
+                    ));
+                }
                 let (left_unit, left_value) = eval_unit_name(ctx, &binop.left)?;
                 Ok((
                     left_unit
